@@ -73,6 +73,18 @@ def check_flag_ownership(rep, core):
                 rep.bad('R06.i', key, '%s writes the flag `%s` (%s at %s): only %s may set an aborted flag — work that was not cancelled '
                         'through a handle (an evicted or finished task, a sibling) must not become aborted, and through the flag it shares, neither may its command'
                         % (host, flag, last_seg(cn), f.where(bb), 'AbortHandle::abort / JoinHandle::abort'))
+    # ... and a flag stays with its owner for life: the `aborted` field of a command / task / handle is set where the value is built
+    # and never assigned again (a command given a fresh flag is out of reach of the handles taken from it, and un-aborted)
+    for f in core.built:
+        if f.j.get('exp') or '::command::' not in f.npath or '::testing' in f.npath:
+            continue
+        for bb, i, s_ in f.stmts('assign'):
+            if s_['d']['p'] and s_['d']['p'][-1] == '.aborted':
+                rep.bad('R06.i', '%s|reassigns|aborted' % core.host_root(f), '%s assigns a new value to an `aborted` field at %s: the handles already taken '
+                        'keep the old flag (they can no longer cancel the work) and an aborted command becomes live again' % (core.host_root(f), f.where(bb)))
+        for bb, t in f.calls('core::mem::replace', 'core::mem::swap', 'core::mem::take'):
+            if t.get('args') and 'aborted' in c01.field_of_receiver(f, t['args'][0]) and 'Arc<' in (t['args'][0].get('t') or ''):
+                rep.bad('R06.i', '%s|reassigns|aborted' % core.host_root(f), '%s replaces an `aborted` flag at %s' % (core.host_root(f), f.where(bb)))
     if len([k for k in seen_w if k[1] == 'aborted']) < 2:
         rep.bad('R06.i', 'writers', 'expected the two abort methods to write `aborted`, found %s' % sorted(seen_w))
     seen_t = set()
